@@ -7,6 +7,7 @@
 //!    instructions, variables with their type trees and "needs drop" leaves),
 //!  - [`lower`], [`Lowered::eval_main`], [`Lowered::codegen`]: run the LIR
 //!    evaluator and the JIT on the *same* lowered program,
+//!  - [`EvalMem`]: the evaluator's checked memory, operation by operation,
 //!  - [`lex`]: the token stream with byte spans,
 //!  - [`report_spans`]: every source location cited by a [`RotoReport`].
 //!
@@ -289,6 +290,97 @@ impl<'r> Lowered<'r> {
     /// Generate machine code from this very lowered program
     pub fn codegen(self) -> Package<NoCtx> {
         self.0.codegen()
+    }
+}
+
+/// The evaluator's checked memory, one call per operation.
+///
+/// Every operation runs under `catch_unwind`: the evaluator stops loudly by
+/// panicking, which is reported as [`MemOutcome::Panic`].
+pub struct EvalMem(Memory);
+
+/// Outcome of one operation on [`EvalMem`]
+#[derive(Debug, Clone, PartialEq)]
+pub enum MemOutcome {
+    /// The operation completed without a result
+    Done,
+    /// The operation completed and returned a pointer (index) or a flag
+    Index(usize),
+    /// The operation completed and returned these bytes
+    Bytes(Vec<u8>),
+    /// The operation stopped with a panic
+    Panic(String),
+}
+
+fn mem_op<R>(f: impl FnOnce() -> R, ok: impl FnOnce(R) -> MemOutcome) -> MemOutcome {
+    match std::panic::catch_unwind(std::panic::AssertUnwindSafe(f)) {
+        Ok(r) => ok(r),
+        Err(e) => MemOutcome::Panic(if let Some(s) = e.downcast_ref::<&str>() {
+            s.to_string()
+        } else if let Some(s) = e.downcast_ref::<String>() {
+            s.clone()
+        } else {
+            "<panic>".to_string()
+        }),
+    }
+}
+
+impl Default for EvalMem {
+    fn default() -> Self {
+        Self::new()
+    }
+}
+
+impl EvalMem {
+    pub fn new() -> Self {
+        Self(Memory::new())
+    }
+
+    /// `Memory::allocate` in the current frame; returns the new pointer
+    pub fn allocate(&mut self, bytes: usize) -> MemOutcome {
+        mem_op(|| self.0.allocate(bytes), MemOutcome::Index)
+    }
+
+    /// The frame push of a `Call` instruction
+    pub fn push_frame(&mut self) -> MemOutcome {
+        mem_op(|| self.0.verif_push_frame(), |_| MemOutcome::Done)
+    }
+
+    /// The frame pop of a `Return` instruction; 1 if a frame was popped, 0 for the root
+    pub fn pop_frame(&mut self) -> MemOutcome {
+        mem_op(|| self.0.verif_pop_frame(), |b| MemOutcome::Index(b as usize))
+    }
+
+    /// The `Offset` instruction; returns the new pointer
+    pub fn offset_by(&mut self, p: usize, offset: usize) -> MemOutcome {
+        mem_op(|| self.0.verif_offset_by(p, offset), MemOutcome::Index)
+    }
+
+    /// The `Write` instruction
+    pub fn write(&mut self, p: usize, val: &[u8]) -> MemOutcome {
+        mem_op(|| self.0.write(p, val), |_| MemOutcome::Done)
+    }
+
+    /// The `Read` instruction
+    pub fn read(&mut self, p: usize, size: usize) -> MemOutcome {
+        mem_op(|| self.0.read_slice(p, size).to_vec(), MemOutcome::Bytes)
+    }
+
+    /// The `Copy` instruction
+    pub fn copy(&mut self, to: usize, from: usize, size: usize) -> MemOutcome {
+        mem_op(|| self.0.verif_copy(to, from, size), |_| MemOutcome::Done)
+    }
+
+    /// `Memory::get` (the raw address handed to clone/drop/eq functions and
+    /// runtime calls), followed by a read of the one byte at that address
+    pub fn get_byte(&mut self, p: usize) -> MemOutcome {
+        mem_op(
+            || {
+                let q = self.0.get(p) as *const u8;
+                vec![unsafe { *q }]
+            },
+            MemOutcome::Bytes,
+        )
     }
 }
 
